@@ -15,6 +15,49 @@ CHECKS = [
      'note': 'Trusted: vf/refop.py (tied to the kernel by C02), numpy/scipy. '
              'tol >= 1e-10; sources touching the outermost cells excluded as '
              'in the property.'},
+    {'id': 'C03', 'ref': 'DESIGN.md section 3 C03',
+     'technique': 'runtime monitoring of solver.smoothing and the four '
+                  'Gauss-Seidel kernels (compiled and py_func) with a '
+                  'reference-operator oracle: fixed point, searched last-block '
+                  'exactness, affinity, boundary sentinels, kernel-selection '
+                  'wrappers; recorded banded systems vs dense solve; '
+                  'NUMBA_BOUNDSCHECK build (thorough)',
+     'text': 'Each smoother variant is executed on thousands of random small '
+             'systems with a known exact solution and judged against the '
+             'independently assembled operator; every banded system the real '
+             'line smoothers build (captured in py_func mode) and random ones '
+             'are re-solved densely. Held on the executions observed.',
+     'note': 'Trusted: vf/refop.py, numpy.linalg.solve. Tolerances are '
+             'rounding bounds scaled with a conditioning proxy (eps*kappa), '
+             'so ill-conditioned cases are judged less sharply.'},
+    {'id': 'C04', 'ref': 'DESIGN.md section 3 C04',
+     'technique': 'runtime monitoring: complete fine/coarse edge bases pushed '
+                  'through solver.restriction/prolongation for all 7 '
+                  'patterns, compared with each other and with 1-D reference '
+                  'interpolation weights; in-situ adjoint probes and '
+                  'conservation sums on every level of live solves',
+     'text': 'R and P are extracted column by column from the real functions '
+             '(linear maps: complete per sampled grid) and the transpose, '
+             'additivity, boundary, weight and conservation clauses are '
+             'checked exactly or to a derived rounding bound; wrappers repeat '
+             'the adjoint/conservation test on the grids live solves visit.',
+     'note': 'Trusted: own 1-D linear interpolation weights. Grids sampled '
+             '(coarsened directions 4..12, others 2..7).'},
+    {'id': 'C05', 'ref': 'DESIGN.md section 3 C05',
+     'technique': 'online trace checker: wrappers on multigrid/smoothing/'
+                  'restriction/prolongation/_terminate and the smoother '
+                  'kernels record the ordered event trace of real solver '
+                  'control code (skeleton mode with no-op kernels and full '
+                  'mode), compared event by event with a textbook V/W/F '
+                  'schedule; verb=5 log and level_all as second channel',
+     'text': 'The trace of every run must equal the finite reference schedule '
+             '(termination as bounded progress), including coarsening '
+             'arithmetic, kernel selection and direction cycling. Thorough '
+             'tier enumerates all shapes in {2..40}^3 (configurations sampled '
+             'per shape) and all single-direction sizes to 1024.',
+     'note': 'Skeleton mode trusts that kernels influence control flow only '
+             'through the residual norm; full mode samples that. '
+             'Configuration product is sampled, not exhaustive.'},
     {'id': 'C02', 'ref': 'DESIGN.md section 3 C02',
      'technique': 'runtime monitoring: full edge-basis extraction through the '
                   'live amat_x kernel (compiled and py_func) compared with an '
